@@ -96,13 +96,13 @@ def expected(rec, c, fish_pct, kcals_monthly):
         powered = cyc[r["cal"]] * (ratio if ratio > 1 else ratio ** expo)
         area = 1 + fr(r["expand"]) * (c["RATIO_INCREASED_CROP_AREA"] - 1)
         reloc = powered * area
-        ghf = fr(r["gh"]) * c["GREENHOUSE_AREA_MULTIPLIER"] if c["ADD_GREENHOUSES"] else 0.0
+        ghf = fr(r["gh"]) * c["GREENHOUSE_AREA_MULTIPLIER"] if c["ADD_GREENHOUSES"] and total_area > 0 else 0.0   # (no cropland: none occupied)
         grown = reloc if r["relocated"] else plain
         out["crops_grown_reloc"].append(reloc)
         out["crops_grown_plain"].append(plain)
         out["gh_frac"].append(ghf)
         out["crops"].append(grown * (1 - ghf) * wd)
-        gh_yield = np.mean(cyc) / total_area * (ratio if ratio > 1 else ratio ** expo) * wd * (1 - c["WASTE_RETAIL"] / 100) * (1 + c["GREENHOUSE_GAIN_PCT"] / 100)
+        gh_yield = 0.0 if total_area == 0 else np.mean(cyc) / total_area * (ratio if ratio > 1 else ratio ** expo) * wd * (1 - c["WASTE_RETAIL"] / 100) * (1 + c["GREENHOUSE_GAIN_PCT"] / 100)
         out["greenhouse"].append(gh_yield * ghf * total_area)
         fish_k = c["FISH_DRY_CALORIC_ANNUAL"] * (1 - c["WASTE_DISTRIBUTION"]["SEAFOOD"] / 100) * (1 - c["WASTE_RETAIL"] / 100) * 4e6 / 1e9 / 12
         out["fish"].append(fish_pct[m] / 100 * fish_k)
@@ -219,6 +219,11 @@ def main():
         for j in range(n_inputs):
             small = (j % 3 == 2)
             c, fish = gen_inputs(rng, N, cfg, small)
+            nocrop = (rep["runs"] % 7 == 3)
+            if nocrop:
+                # an input with a harvest but no cropland on record (Singapore's row; `fraction_crop_area: 0`): greenhouses occupy nothing
+                c["INITIAL_CROP_AREA_FRACTION"] = 0.0
+                c["INITIAL_CROP_AREA_HA"] = 0.0
             try:
                 real = run_real(c, fish)
             except BaseException as ex:  # noqa
@@ -226,7 +231,7 @@ def main():
                 continue
             rep["runs"] += 1
             exp = expected(rec, c, fish, 2100 * 30)
-            label = "N=%d reloc=%s gh=%s expand=%s%s" % (N, cfg["reloc"], cfg["gh"], cfg["expand"], " small" if small else "")
+            label = "N=%d reloc=%s gh=%s expand=%s%s%s" % (N, cfg["reloc"], cfg["gh"], cfg["expand"], " small" if small else "", " no-cropland" if nocrop else "")
             for name in ("crops", "greenhouse", "fish", "grass", "feed", "biofuel", "scp", "cs", "sw_area", "sw_growth", "gh_frac"):
                 rep["series_checked"] += 1
                 got = real[name]
